@@ -626,16 +626,57 @@ package jsonata
 //@   loop 0 invariant -1 <= $i0
 //@   loop 1 invariant 0 <= i && i <= N && N == rvlen(v) && arrKind(kind(v)) && canif(v) && -1 <= $i0
 
+//@ pred keyEntryOK(pair int, its []int, nPairs int, nItems int) = 0 <= pair && pair < nPairs && (forall t in [0, len(its)): (0 <= its[t] && its[t] < nItems))
 //@ func groupItemsByKey
 //@   props C14 C11 C09
 //@   opaque-arith
+//@   precise-append
 //@   requires obj != nil && arrKind(kind(items)) && canif(items)
 //@   preserves obj
 //@   ensures [C14:error-kinds] r1 != nil ==> (r0 == nil && (r1 == ret("eval#0", 1) || evalErrIs(r1, ErrIllegalKey) || evalErrIs(r1, ErrDuplicateKey)))
 //@   assigns heap
 //@   atcall[literal-key-is-the-name] eval#0 requires !typeis(keyNode, "*jparse.StringNode") && callee_node == keyNode && callee_input == at(items, j)
+//@   ensures r1 == nil ==> r0 != nil
+//@   atif[C14:literal-key-twice-is-duplicate] "ok"#1 iff has(results, key)
+//@   atif[C14:key-must-be-a-string] "ok"#2 iff isStrV(ret("eval#0", 0))
+//@   atif[C14:first-item-of-a-key-opens-it] "ok"#3 iff has(results, key)
+//@   atif[C14:same-key-from-another-pair-is-duplicate] "idx.pair != i" iff results[key].pair != i
 //@   loop 0 invariant -1 <= $i0 && results != nil && local(results) && nItems == rvlen(items)
 //@   loop 1 invariant 0 <= j && j <= nItems && results != nil && local(results) && nItems == rvlen(items) && -1 <= $i0
+
+// makeArray: arrays stay, anything else (also 'no value') becomes a one-slot array
+//@ func makeArray
+//@   props C14 C09
+//@   requires ifaceable(v)
+//@   ensures arrKind(kind(result)) && canif(result)
+//@   ensures arrKind(kind(res(v))) ==> result == res(v)
+//@   ensures !arrKind(kind(res(v))) ==> rvlen(result) == 1
+//@   assigns nothing
+
+// evalObject: one member per key that groupItemsByKey found; the member's value expression is the one of the pair
+// that produced the key, evaluated over exactly the items that produced it - the whole context when the key is a
+// literal (no items recorded) or every item produced it; absent values are omitted.
+//@ func evalObject
+//@   props C14 C09
+//@   opaque-arith
+//@   requires node != nil && ifaceable(data)
+//@   preserves node
+//@   ensures [C14:error-has-no-value] r1 != nil ==> !valid(r0)
+//@   ensures [C14:object-value] r1 == nil ==> (kind(r0) == 21 && canif(r0))
+//@   assigns heap
+//@   atcall[C14:groups-the-arrayified-context] groupItemsByKey#0 requires callee_obj == node && callee_items == ret("makeArray#0", 0) && callee_env == env
+//@   atcall[C14:value-over-the-key's-items] eval#0 requires ((len(idx.items) == 0 || len(idx.items) == nItems) ==> callee_input == ret("makeArray#0", 0)) && callee_env == env
+//@   atcall[C14:value-of-the-key's-pair] eval#0 requires callee_node == node.Pairs[idx.pair][1]
+//@   atif[C14:absent-member-omitted] "value.IsValid()" iff valid(ret("eval#0", 0))
+//@   loop 0 invariant results != nil && nItems == rvlen(data) && arrKind(kind(data)) && canif(data) && data == ret("makeArray#0", 0)
+//@   loop 1 invariant -1 <= $i1 && kind(items) == 23 && rvlen(items) == n && n == len(idx.items) && canif(items) && nItems == rvlen(data) && arrKind(kind(data)) && canif(data)
+
+//@ func evalGroup
+//@   props C14 C09
+//@   requires node != nil && nn(node.Expr) && node.ObjectNode != nil
+//@   preserves node
+//@   ensures [C14:error-has-no-value] r1 != nil ==> !valid(r0)
+//@   atcall[C14:groups-the-expression's-items] evalObject#0 requires callee_node == node.ObjectNode && callee_data == ret("eval#0", 0) && callee_env == env
 
 // --- C02: predicates -------------------------------------------------------------------------------------------
 // Statement: e[p] evaluates p once per item of e's value (a non-array value counting as a one-item list) with that
